@@ -763,6 +763,8 @@ struct Synth<'a> {
     tags: BTreeMap<&'static str, usize>,
     /// allow the shapes outside the contract of the preservation theorem
     wild: bool,
+    /// user functions (with an effect) named like Go builtins / conversions / runtime helpers
+    shadow: Vec<String>,
 }
 
 impl Synth<'_> {
@@ -804,8 +806,14 @@ impl Synth<'_> {
                 None => int(3),
             },
             7 => {
-                self.tag("expr-call");
-                call(ti32(), var("bump", fnty(vec![ti32()], ti32())), vec![self.int_expr(depth - 1)])
+                if !self.shadow.is_empty() && self.rng.chance(2, 3) {
+                    self.tag("expr-call-shadowing-builtin");
+                    let f = self.rng.pick(&self.shadow).clone();
+                    call(ti32(), var(&f, fnty(vec![ti32()], ti32())), vec![self.int_expr(depth - 1)])
+                } else {
+                    self.tag("expr-call");
+                    call(ti32(), var("bump", fnty(vec![ti32()], ti32())), vec![self.int_expr(depth - 1)])
+                }
             }
             8 => match self.pick_var(Ty::Ptr) {
                 Some(p) => {
@@ -946,8 +954,14 @@ impl Synth<'_> {
                 None => vec![expr_stmt(probe_call("noshow"))],
             },
             8 => {
-                self.tag("effect-call");
-                vec![expr_stmt(probe_call(&format!("e{}", self.rng.below(100))))]
+                if !self.shadow.is_empty() && self.rng.chance(1, 2) {
+                    self.tag("stmt-call-shadowing-builtin");
+                    let f = self.rng.pick(&self.shadow).clone();
+                    vec![expr_stmt(call(ti32(), var(&f, fnty(vec![ti32()], ti32())), vec![self.int_expr(0)]))]
+                } else {
+                    self.tag("effect-call");
+                    vec![expr_stmt(probe_call(&format!("e{}", self.rng.below(100))))]
+                }
             }
             9 => match self.pick_var(Ty::Arr) {
                 Some(x) => {
@@ -1114,6 +1128,18 @@ impl Synth<'_> {
                 l(vec![expr_stmt(probe_call("bump")), ret(Some(bin("add", ti32(), var("x", ti32()), int(1))))]),
             ],
         ));
+        // effectful user functions whose names are Go builtins, conversions or runtime helpers
+        for name in self.shadow.clone() {
+            items.push(tagged(
+                "func",
+                vec![
+                    a(&name),
+                    l(vec![l(vec![a("x"), ti32()])]),
+                    ti32(),
+                    l(vec![expr_stmt(probe_call(&format!("<{}>", name))), ret(Some(bin("add", ti32(), var("x", ti32()), int(1))))]),
+                ],
+            ));
+        }
         let nfn = 1 + self.rng.below(2);
         let mut names = Vec::new();
         for i in 0..nfn {
@@ -1236,6 +1262,13 @@ pub fn main(args: &util::Args) {
             let Ok(src) = std::fs::read_to_string(&f) else { continue };
             let id = format!("corpus:{}/{}", sub, f.file_name().unwrap().to_string_lossy());
             if let Outcome::Ok(c) = util::compile_text(&dir, &src) {
+                // whole-pipeline oracle for the DCE witnesses: the ANF the backend starts from against the
+                // Go it emits (the C02 / C09 witnesses carry their owners' known findings)
+                if sub == "DCE" {
+                    let impls = crate::c01::impls_table(&c.genv);
+                    writeln!(out, "{}\tSTAGE\tanf\t{}", id, crate::c01::prog(crate::dump::anf_file(&c.anf), &impls).to_text()).unwrap();
+                    writeln!(out, "{}\tSTAGE\tgo\t{}", id, godump::gfile(&c.go).to_text()).unwrap();
+                }
                 sources.push((id, godump::gfile(&c.go), src));
             }
         }
@@ -1279,12 +1312,52 @@ pub fn main(args: &util::Args) {
             emit(&mut out, &format!("{}|mut{}", id, k), "mutate", &tags, &m);
         }
     }
+    // names a user function can collide with: the callee table of dce.rs (read from its source),
+    // Go's predeclared functions, and the runtime helpers of a real compile
+    let mut shadow_names: Vec<String> = Vec::new();
+    if let Ok(text) = std::fs::read_to_string(util::repo_root().join("crates/compiler/src/go/dce.rs")) {
+        if let Some(pos) = text.find("const VALUE_ONLY_CALLEES") {
+            if let Some(end) = text[pos..].find("];") {
+                let body = &text[pos..pos + end];
+                let mut rest = &body[body.find("= [").map(|i| i + 3).unwrap_or(0)..];
+                while let Some(q) = rest.find('"') {
+                    let r2 = &rest[q + 1..];
+                    let Some(e) = r2.find('"') else { break };
+                    shadow_names.push(r2[..e].to_string());
+                    rest = &r2[e + 1..];
+                }
+            }
+        }
+    }
+    for n in crate::goscope::GO_PREDECLARED.iter().skip(26) {
+        shadow_names.push(n.to_string());
+    }
+    if let Some((_, s0, _)) = sources.first() {
+        if let Some(("gofile", items)) = head(s0) {
+            for it in items {
+                if let Some(("func", [name, ..])) = head(it) {
+                    shadow_names.push(atom(name).unwrap_or("").to_string());
+                }
+            }
+        }
+    }
+    shadow_names.retain(|n| !["", "main", "main0", "panic", "dce_probe", "dce_show", "bump", "dce_keep_unit"].contains(&n.as_str()) && !n.starts_with("helper"));
+    shadow_names.sort();
+    shadow_names.dedup();
+    writeln!(out, "#SHADOW\t{}", shadow_names.join(" ")).unwrap();
     let nsynth = if thorough { 4000 } else { 500 };
     for i in 0..nsynth {
         let mut root = Rng::new(args.seed ^ 0xdce_5);
         let mut rng = root.fork(i as u64);
         let wild = i % 4 == 3;
-        let mut g = Synth { rng: &mut rng, k: 0, scope: Vec::new(), tags: BTreeMap::new(), wild };
+        // every fifth file defines effectful functions named like builtins (a sample of the name table)
+        let shadow: Vec<String> = if i % 5 == 4 {
+            let k = 3 + rng.below(4);
+            (0..k).map(|_| rng.pick(&shadow_names).clone()).collect::<std::collections::BTreeSet<_>>().into_iter().collect()
+        } else {
+            Vec::new()
+        };
+        let mut g = Synth { rng: &mut rng, k: 0, scope: Vec::new(), tags: BTreeMap::new(), wild, shadow };
         let f = g.file();
         let tags = g.tags.iter().map(|(k, v)| format!("{}={}", k, v)).collect::<Vec<_>>().join(" ");
         emit(&mut out, &format!("synth:{}:{}{}", args.seed, i, if wild { ":wild" } else { "" }), "synth", &tags, &f);
